@@ -188,6 +188,8 @@ func (s *vcbSeq) arriveL(u *vcbUnit) {
 	}
 	s.arrived[u.U] = true
 	if p, ok := s.units[u.Parent]; ok && p.Parent != "" {
+		// a child can only be here if its graph unit is past its own initialisation (an unmanaged graph unit has no gate of its own)
+		s.arriveL(p)
 		if !s.seen[p.U+"/startR"] && !s.unmanaged[p.U] {
 			s.unmanaged[p.U] = true
 			s.completeL(p.U + "/startR")
